@@ -840,11 +840,43 @@ pub fn leap_files(m: &mut EM, rng: &mut Rng, thorough: bool) {
     }
 }
 
+impl<'a> EM<'a> {
+    /// leap_seconds(false): the answer with the non-IERS (SOFA) entries included.  The value is the library's own
+    /// (no statement pins the SOFA entries); what matters is that asking for it does not influence what follows.
+    pub fn leap_all(&mut self) {
+        let a = self.e;
+        let r = catch(|| a.leap_seconds(false));
+        self.rec.ev("leap_all", format!("\"res\":{}", jopt_f64(&r)), true);
+    }
+}
+
 pub fn c06(rec: &mut Rec, lm: &Landmarks, rng: &mut Rng, thorough: bool) {
     let g = EpGen::new(lm, thorough);
     leap_dumps(rec);
     let mut m = EM::new(rec);
     leap_files(&mut m, rng, thorough);
+    // the SOFA entries must not influence conversions: epochs of 1958-1973 (the span of those entries), each asked
+    // for leap_seconds(false) first and then converted / queried IERS-only; and the other way round
+    for i in 0..(if thorough { 3_000 } else { 300 }) {
+        let day = 21_184 + rng.below(5_600) as i128; // 1958-01-01 .. 1973-05
+        let v = day * NS_DAY as i128 + rng.below(NS_DAY) as i128;
+        let ts = if i % 2 == 0 { TimeScale::UTC } else { TimeScale::TAI };
+        m.eload_dur(ts, ns_dur(v));
+        if i % 3 != 2 {
+            m.leap_all();
+        }
+        m.leap_query();
+        m.to_scale(if ts == TimeScale::UTC { TimeScale::TAI } else { TimeScale::UTC });
+        m.to_scale(ts);
+        if i % 3 == 2 {
+            m.leap_all();
+            m.leap_query();
+        }
+        // and a modern epoch right after: nothing carried over
+        m.eload_dur(ts, ns_dur(*rng.pick(&g.leaps)));
+        m.leap_query();
+        m.to_dur(if ts == TimeScale::UTC { TimeScale::TAI } else { TimeScale::UTC }, 1);
+    }
     // the providers answer identically: built-in table and IERS file, around every entry and elsewhere
     for (k, &x) in g.leaps.iter().enumerate() {
         if !thorough && k % 5 != 0 {
